@@ -64,6 +64,13 @@ def lf_check(case):
     layout, ns = case
     root = os.path.join(synth.proc_scratch(), "c12")
     data = np2.content(ns, 5, "broadband", seed=SEED[0] + ns)
+    if ns % 3 == 0:
+        # large slow signals, far above the 13-bit range of the ADC codes but well inside int16: a 20 Hz swing of +-20000 counts, offsets of +15000 and -25000 counts
+        big = data.astype(np.int64)
+        big[:, 0] += np.round(20000 * np.sin(2 * np.pi * 20 * np.arange(ns) / 30000.0)).astype(np.int64)
+        big[:, 1] += 15000
+        big[:, 2] -= 25000
+        data = np.clip(big, -32768, 32767).astype(np.int16)
     nlf = -(-ns // RATIO)
     seen = {}
     ntr = 0
